@@ -129,8 +129,11 @@ def check_handoff(ctx, facts, fnpath, prefix, rule='handoff-pairing'):
         kinds = [k for k, _, _ in fe]
         # the file is in the writer's hands after pop_front(open_write_files) or push_back(files)
         t = None
+        # a pop_front whose result was seen to be None took nothing (`match q.pop_front() { Some(f) => .., None => create .. }`)
+        empty_pops = {str(norm_tag(e[1])).split('@', 1)[1].split('.', 1)[0].split('(', 1)[0] for e in o.events
+                      if e[0] == 'variant' and e[3] == 'None' and str(norm_tag(e[1])).startswith('call:pop_front@')}
         for idx, (k, fld, line) in enumerate(fe):
-            if (k == 'pop_front' and fld == 'open_write_files') or (k == 'push_back' and fld == 'files'):
+            if (k == 'pop_front' and fld == 'open_write_files' and str(line) not in empty_pops) or (k == 'push_back' and fld == 'files'):
                 t = idx
                 break
         if t is None:
